@@ -49,7 +49,7 @@ def _case(draw, flavor):
     # noreset flags
     for grp in ("outputs", "sigs", "vars"):
         for o in spec[grp]:
-            if o.get("default") is not None and not o.get("push") and draw(st.integers(0, 6)) == 0:
+            if o.get("default") is not None and not o.get("push") and not o.get("pyref") and draw(st.integers(0, 6)) == 0:
                 o["noreset"] = True
     # on_reset actions: give values to objects the reset rule does not touch
     acts = []
